@@ -1031,6 +1031,57 @@ impl<'a> Gen<'a> {
         self.fixed_key_for_value(l, v).unwrap()
     }
 
+    /// A short burst of fixed-layout keys aimed at the states the composer distinguishes: a
+    /// prefix that sets the state up (a left-standing sign first, a consonant, a hasanta, a
+    /// chandrabindu, ...) and then one to three keys of the classes that meet it specially
+    /// (every sign including the one without an independent vowel, length mark, joiners,
+    /// reph, folas, hasanta, chandrabindu, ...). Returns (key code, modifier) pairs.
+    pub fn fixed_sharp_burst(&mut self, l: &LayoutInfo) -> Vec<(u16, u8)> {
+        let single = |s: &str| s.chars().count() == 1;
+        let first = |s: &str| s.chars().next().unwrap();
+        let cons: Vec<&str> = Self::values_of_class(l, |s| single(s) && fm::is_consonant(first(s)));
+        let kars: Vec<&str> = Self::values_of_class(l, |s| single(s) && fm::is_mapped_kar(first(s)));
+        let vows: Vec<&str> = Self::values_of_class(l, |s| single(s) && fm::is_independent_vowel(first(s)));
+        let left = ["\u{09BF}", "\u{09C7}", "\u{09C8}"];
+        let mut vals: Vec<String> = Vec::new();
+        let c = |g: &mut Gen| -> String { if cons.is_empty() { "\u{0995}".to_string() } else { g.rng.pick(&cons).to_string() } };
+        let lft = |g: &mut Gen| -> String { g.rng.pick(&left).to_string() };
+        match self.rng.below(9) {
+            0 => {}
+            1 => vals.push(lft(self)),
+            2 => { vals.push(lft(self)); vals.push(c(self)); }
+            3 => { vals.push(lft(self)); vals.push(c(self)); vals.push("\u{09CD}".into()); }
+            4 => { vals.push(c(self)); vals.push("\u{09CD}".into()); }
+            5 => { vals.push(c(self)); vals.push(lft(self)); }
+            6 => { vals.push(c(self)); vals.push("\u{0981}".into()); }
+            7 => { vals.push(c(self)); if !kars.is_empty() { vals.push(self.rng.pick(&kars).to_string()); } }
+            _ => vals.push("\u{09CD}".into()),
+        }
+        for _ in 0..self.rng.range(1, 3) {
+            let v: String = match self.rng.weighted(&[14, 18, 6, 8, 8, 8, 8, 8, 8, 6, 8]) {
+                0 => "\u{09C4}".into(),
+                1 if !kars.is_empty() => self.rng.pick(&kars).to_string(),
+                2 => "\u{09D7}".into(),
+                3 => (*self.rng.pick(&["\u{200C}", "\u{200D}"])).to_string(),
+                4 => fm::REPH.into(),
+                5 => fm::ZOFOLA.into(),
+                6 => "\u{09CD}\u{09B0}".into(),
+                7 => "\u{09CD}".into(),
+                8 => "\u{0981}".into(),
+                9 if !vows.is_empty() => self.rng.pick(&vows).to_string(),
+                _ => c(self),
+            };
+            vals.push(v);
+        }
+        let mut out = Vec::new();
+        for v in vals {
+            if let Some(Op::Key { key, m, .. }) = self.fixed_key_for_value(l, &v) {
+                out.push((key, m));
+            }
+        }
+        out
+    }
+
     // ------------------------------------------------------------------ C06
 
     fn gen_session_reset(&mut self) -> Plan {
@@ -1238,6 +1289,24 @@ impl<'a> Gen<'a> {
                 }
                 1 => ops.push(Op::Commit { h: 0, idx: Idx::Presel }),
                 _ => ops.push(Op::Finish { h: 0 }),
+            }
+            if self.rng.pct(9) {
+                // the candidate list is switched off for a word or two (update_engine while
+                // idle): what is committed then is the one string shown, which is nobody's
+                // choice; the learned choices must be there when the list comes back
+                ops.push(Op::Update { h: 0, cfg: cfg.with(PHON_SUG, false) });
+                for _ in 0..self.rng.range(1, 3) {
+                    let t = if !learned.is_empty() && self.rng.pct(50) { self.rng.pick(&learned).clone() } else { self.learn_text() };
+                    self.type_text(&mut ops, 0, &t, Sel::Presel);
+                    match self.rng.weighted(&[70, 30]) {
+                        0 => ops.push(Op::Commit { h: 0, idx: Idx::Rel(0) }),
+                        _ => ops.push(Op::Finish { h: 0 }),
+                    }
+                }
+                if self.rng.pct(15) {
+                    ops.push(Op::Restart { h: 0 });
+                }
+                ops.push(Op::Update { h: 0, cfg });
             }
             if restarts < 4 && self.rng.pct(22) {
                 ops.push(Op::Restart { h: 0 });
@@ -1903,6 +1972,9 @@ impl<'a> Gen<'a> {
                 let mut u: Vec<String> = Vec::new(); // Unicode order values
                 let mut t: Vec<String> = Vec::new(); // typewriter order values
                 let mut pending_probe = false;
+                // where both sides have typed "first consonant + hasanta" of a conjunct whose
+                // left-standing sign was typed first on T (it waits again after the hasanta)
+                let mut sync: Option<(usize, usize)> = None;
                 match self.rng.weighted(&[72, 14, 14]) {
                     0 => {
                         // consonant / conjunct, optional sign, optional chandrabindu
@@ -1959,6 +2031,9 @@ impl<'a> Gen<'a> {
                         }
                         // in typewriter order the left-standing sign comes first, before a
                         // prefixed reph value too (it waits across the reph's hasanta)
+                        if !t_pre.is_empty() && !with_reph && cluster.len() >= 3 && cluster[1] == "\u{09CD}" && self.rng.pct(60) {
+                            sync = Some((2, t_pre.len() + 2));
+                        }
                         t.extend(t_pre);
                         if with_reph && !reph_on { t.push(fm::REPH.into()); }
                         t.extend(cluster.iter().cloned());
@@ -1987,17 +2062,30 @@ impl<'a> Gen<'a> {
                     }
                 }
                 // emit: interleave the two hosts' keys at random (call granularity)
-                let mut uo: Vec<Op> = u.iter().filter_map(|v| key(self, 0, v)).collect();
+                let uo_all: Vec<Option<Op>> = u.iter().map(|v| key(self, 0, v)).collect();
+                let to_all: Vec<Option<Op>> = t.iter().map(|v| key(self, 1, v)).collect();
+                if uo_all.iter().chain(to_all.iter()).any(|o| o.is_none()) {
+                    sync = None;
+                }
+                let (us, ts) = sync.unwrap_or((uo_all.len(), to_all.len()));
+                let mut uo: Vec<Op> = Vec::new();
+                let mut uo2: Vec<Op> = Vec::new();
+                for (i, op) in uo_all.into_iter().enumerate() {
+                    if let Some(op) = op {
+                        if i < us { uo.push(op) } else { uo2.push(op) }
+                    }
+                }
                 let mut to: Vec<Op> = Vec::new();
-                for (i, v) in t.iter().enumerate() {
-                    if let Some(op) = key(self, 1, v) {
+                let mut to2: Vec<Op> = Vec::new();
+                for (i, op) in to_all.into_iter().enumerate() {
+                    if let Some(op) = op {
                         if i == 0 && pending_probe {
                             to.push(op.clone());
                             to.push(Op::Mark { tag: 2 });
                             to.push(Op::Bs { h: 1, ctrl: false });
                             to.push(Op::Mark { tag: 3 });
                         }
-                        to.push(op);
+                        if i < ts { to.push(op) } else { to2.push(op) }
                     }
                 }
                 if self.rng.coin() {
@@ -2006,6 +2094,16 @@ impl<'a> Gen<'a> {
                 } else {
                     ops.append(&mut to);
                     ops.append(&mut uo);
+                }
+                if sync.is_some() {
+                    ops.push(Op::Mark { tag: 4 });
+                    if self.rng.coin() {
+                        ops.append(&mut uo2);
+                        ops.append(&mut to2);
+                    } else {
+                        ops.append(&mut to2);
+                        ops.append(&mut uo2);
+                    }
                 }
                 ops.push(Op::Mark { tag: 1 });
             }
